@@ -336,6 +336,12 @@ def run(rep):
             implpts = ds
         except Exception as e:
             implpts = type(e).__name__
+        if isinstance(m_lay, str) and m_lay.startswith('row:'):
+            # raised inside update_from_grid: only happens when the grid has rows
+            if not m_rows and not isinstance(implpts, str) and len(implpts) == 0:
+                rep.hist('layout.errors', 'row-level error masked by an empty grid')
+                continue
+            m_lay = m_lay[4:]
         if isinstance(m_lay, str) or isinstance(implpts, str):
             if isinstance(m_lay, str) and isinstance(implpts, str):
                 rep.hist('layout.errors', implpts)
